@@ -40,6 +40,19 @@ func NewOffsetString(s []rune, offset int) Set {
 	return String{s: s, offset: offset, holes: holes}
 }
 
+// newTrimmedString is NewOffsetString for a store that may begin or end with holes (negative runes): it trims
+// them, adjusting the offset, so that the result is in canonical form.
+func newTrimmedString(s []rune, offset int) Set {
+	for len(s) > 0 && s[0] < 0 {
+		s = s[1:]
+		offset++
+	}
+	for len(s) > 0 && s[len(s)-1] < 0 {
+		s = s[:len(s)-1]
+	}
+	return NewOffsetString(s, offset)
+}
+
 func asString(values ...Value) String {
 	n := len(values)
 	tuples := make([]StringCharTuple, 0, n)
@@ -218,9 +231,9 @@ func (s String) Without(value Value) Set {
 		i := s.index(t.at)
 		switch {
 		case i == 0 && t.char == s.s[0]:
-			s = String{s: s.s[1:], offset: s.offset + 1, holes: s.holes}
+			return newTrimmedString(s.s[1:], s.offset+1)
 		case i == len(s.s)-1 && t.char == s.s[len(s.s)-1]:
-			s = String{s: s.s[:len(s.s)-1], offset: s.offset, holes: s.holes}
+			return newTrimmedString(s.s[:len(s.s)-1], s.offset)
 		case 0 < i && i < len(s.s)-1 && t.char == s.s[i]:
 			newS := make([]rune, len(s.s))
 			copy(newS, s.s)
